@@ -818,14 +818,14 @@ impl FatVolume {
 
                 while let Some(cluster) = current_cluster {
                     for block in first_dir_block_num.range(dir_size) {
-                        match self.find_entry_in_block(
+                        // (an end-of-directory marker ends the search with `NotFound`)
+                        if let Some(entry) = self.find_entry_in_block(
                             block_cache,
                             FatType::Fat16,
                             match_name,
                             block,
-                        ) {
-                            Err(Error::NotFound) => continue,
-                            x => return x,
+                        )? {
+                            return Ok(entry);
                         }
                     }
                     if cluster != ClusterId::ROOT_DIR {
@@ -852,14 +852,14 @@ impl FatVolume {
                 while let Some(cluster) = current_cluster {
                     let block_idx = self.cluster_to_block(cluster);
                     for block in block_idx.range(BlockCount(u32::from(self.blocks_per_cluster))) {
-                        match self.find_entry_in_block(
+                        // (an end-of-directory marker ends the search with `NotFound`)
+                        if let Some(entry) = self.find_entry_in_block(
                             block_cache,
                             FatType::Fat32,
                             match_name,
                             block,
-                        ) {
-                            Err(Error::NotFound) => continue,
-                            x => return x,
+                        )? {
+                            return Ok(entry);
                         }
                     }
                     current_cluster = match self.next_cluster(block_cache, cluster) {
@@ -875,13 +875,18 @@ impl FatVolume {
     }
 
     /// Finds an entry in a given block of directory entries.
+    ///
+    /// Returns `Ok(None)` if the name is not in this block but may be in a
+    /// later one, and `Err(Error::NotFound)` if the block holds the
+    /// end-of-directory marker: nothing behind that marker is part of the
+    /// directory, in this block or in any later one.
     fn find_entry_in_block<D>(
         &self,
         block_cache: &mut BlockCache<D>,
         fat_type: FatType,
         match_name: &ShortFileName,
         block_idx: BlockIdx,
-    ) -> Result<DirEntry, Error<D::Error>>
+    ) -> Result<Option<DirEntry>, Error<D::Error>>
     where
         D: BlockDevice,
     {
@@ -890,16 +895,16 @@ impl FatVolume {
         for (i, dir_entry_bytes) in block.chunks_exact(OnDiskDirEntry::LEN).enumerate() {
             let dir_entry = OnDiskDirEntry::new(dir_entry_bytes);
             if dir_entry.is_end() {
-                // Can quit early
-                break;
+                // The directory ends here
+                return Err(Error::NotFound);
             } else if !dir_entry.is_lfn() && dir_entry.matches(match_name) {
                 // Found it
                 // Block::LEN always fits on a u32
                 let start = (i * OnDiskDirEntry::LEN) as u32;
-                return Ok(dir_entry.get_entry(fat_type, block_idx, start));
+                return Ok(Some(dir_entry.get_entry(fat_type, block_idx, start)));
             }
         }
-        Err(Error::NotFound)
+        Ok(None)
     }
 
     /// Delete an entry from the given directory
@@ -936,15 +941,10 @@ impl FatVolume {
                 while let Some(cluster) = current_cluster {
                     // Scan the cluster / root dir a block at a time
                     for block_idx in first_dir_block_num.range(dir_size) {
-                        match self.delete_entry_in_block(block_cache, match_name, block_idx) {
-                            Err(Error::NotFound) => {
-                                // Carry on
-                            }
-                            x => {
-                                // Either we deleted it OK, or there was some
-                                // catastrophic error reading/writing the disk.
-                                return x;
-                            }
+                        // Either we delete it OK, or we carry on, or we hit the end of
+                        // the directory / some catastrophic error reading/writing the disk.
+                        if self.delete_entry_in_block(block_cache, match_name, block_idx)? {
+                            return Ok(());
                         }
                     }
                     // if it's not the root dir, find the next cluster so we can keep looking
@@ -978,16 +978,10 @@ impl FatVolume {
                     for block_idx in
                         start_block_idx.range(BlockCount(u32::from(self.blocks_per_cluster)))
                     {
-                        match self.delete_entry_in_block(block_cache, match_name, block_idx) {
-                            Err(Error::NotFound) => {
-                                // Carry on
-                                continue;
-                            }
-                            x => {
-                                // Either we deleted it OK, or there was some
-                                // catastrophic error reading/writing the disk.
-                                return x;
-                            }
+                        // Either we delete it OK, or we carry on, or we hit the end of
+                        // the directory / some catastrophic error reading/writing the disk.
+                        if self.delete_entry_in_block(block_cache, match_name, block_idx)? {
+                            return Ok(());
                         }
                     }
                     // Find the next cluster
@@ -1010,12 +1004,16 @@ impl FatVolume {
     ///
     /// Entries are marked as deleted by setting the first byte of the file name
     /// to a special value.
+    ///
+    /// Returns `Ok(true)` if the entry was deleted, `Ok(false)` if the name is
+    /// not in this block but may be in a later one, and `Err(Error::NotFound)`
+    /// if the block holds the end-of-directory marker.
     fn delete_entry_in_block<D>(
         &self,
         block_cache: &mut BlockCache<D>,
         match_name: &ShortFileName,
         block_idx: BlockIdx,
-    ) -> Result<(), Error<D::Error>>
+    ) -> Result<bool, Error<D::Error>>
     where
         D: BlockDevice,
     {
@@ -1026,17 +1024,18 @@ impl FatVolume {
         for (i, dir_entry_bytes) in block.chunks_exact_mut(OnDiskDirEntry::LEN).enumerate() {
             let dir_entry = OnDiskDirEntry::new(dir_entry_bytes);
             if dir_entry.is_end() {
-                // Can quit early
-                break;
+                // The directory ends here
+                return Err(Error::NotFound);
             } else if !dir_entry.is_lfn() && dir_entry.matches(match_name) {
                 let start = i * OnDiskDirEntry::LEN;
                 // set first byte to the 'unused' marker
                 block[start] = 0xE5;
                 trace!("Updating directory");
-                return block_cache.write_back().map_err(Error::DeviceError);
+                block_cache.write_back().map_err(Error::DeviceError)?;
+                return Ok(true);
             }
         }
-        Err(Error::NotFound)
+        Ok(false)
     }
 
     /// Finds the next free cluster after the start_cluster and before end_cluster
